@@ -3,7 +3,8 @@ from props.common import TRUSTED_BASE
 
 LEVEL_TEXT = ('Bounded symbolic model checking (CBMC) of the real move-generation code, layered: (O1) every geometry table and bit utility against first-principles '
               'definitions for all squares and all 2^64 occupancies; (O3) per-move verdicts isLegal / removeIllegal / givesCheck / inCheck against a mailbox oracle on '
-              'symbolic K-man positions; (O2) per-piece generator output against a ray-walk oracle. Each layer is a solver verdict over all values inside its bounds.')
+              'symbolic K-man positions; (O2) per-piece generator output against a ray-walk oracle; (O4a) the en-passant fix-up of the FEN reader on the contract of the legal move list; thorough: the same on 4 men and the '
+              'en-passant capture family on 5 men. Each layer is a solver verdict over all values inside its bounds.')
 ASSUMPTIONS = ['build variant without USE_BMI2/USE_CTZ/USE_POPCNT (the baseline build)', 'FEN text parsing is outside']
 
 def build(tier):
@@ -109,10 +110,10 @@ def build(tier):
     units.append(ufa)
     for w in (0, 1):
         obs.append(Ob('O4a-fixupEP-scan-K4@%d' % w, ufa, 'h_fixup', 'positions of up to 4 men with an en-passant square, %s to move: TextIO::fixupEPSquare keeps the square iff a pawn can legally capture en passant (its scan of the legal move list: destination and moving-piece test); nothing else changes; hash follows' % ('white' if w else 'black'),
-                      unwind=65, param=w, core=True, timeout=1800, mem_gb=12, backend='kissat', unwind_fn={r'_ZN6TextIO13fixupEPSquareER8Position': 6},
+                      unwind=65, param=w, core=True, timeout=1800, mem_gb=12, backend='kissat', unwind_fn={r'_ZN6TextIO13fixupEPSquareER8Position': 8},
                       functions=['TextIO::fixupEPSquare (textio.cpp:182-200)', 'Position::setEpSquare'],
-                      stubs=['pseudoLegalMoves + removeIllegal -> their contract (C01 O2/O3): an arbitrary list of <= 4 legal moves containing every legal move onto the ep square (at most 3 men of the side to move can go there)'],
-                      bounds='two kings + up to 2 further men of any kind; any en-passant square the FEN reader accepts; legal-move list abstracted to <= 4 entries (the scan treats entries independently)'))
+                      stubs=['pseudoLegalMoves + removeIllegal -> their contract (C01 O2/O3: exactly the legal moves), in the form the scan can observe: every legal move onto the ep square (oracle, one candidate per man), interleaved arbitrarily with up to 2 entries that go elsewhere'],
+                      bounds='two kings + up to 2 further men of any kind; any en-passant square the FEN reader accepts; legal-move list abstracted to the moves onto the ep square + up to 2 other entries in any interleaving (the scan ignores entries with another destination)'))
     # (the same check on the real, unabstracted move list - pseudoLegalMoves + removeIllegal writing a 256-entry MoveList inside fixupEPSquare - exhausts 16 GB in
     #  propositional reduction already at 3 men; the list contract used above is what O2-gen/O3-removeillegal establish)
     return units, obs
